@@ -2054,6 +2054,8 @@ class TypeTag:
         self.conv = conv
 
     def _pv_call(self, ex, *args, **kwargs):
+        if self.conv is None:
+            raise OutsideSubset(f"construction of a {self.name} object is not modelled")
         return self.conv(ex, *args, **kwargs)
 
     def _pv_binop(self, ex, op, other):
